@@ -360,7 +360,12 @@ class Layouts:
             raise Unknown("call " + path)
         if k == "un" and e[1] == "Not":
             a = self.eval(e[2], shapes, args, tail_len)
-            if isinstance(a, int) and a in (0, 1):
+            ty = e[3] if len(e) > 3 else None
+            if isinstance(a, int) and ty in INT_WIDTH:
+                # `!x` on an integer (`(size + align - 1) & !(align - 1)`): bitwise complement at the type's width
+                w = INT_WIDTH[ty] or self.bits
+                return (~a) & ((1 << w) - 1)
+            if isinstance(a, int) and a in (0, 1) and ty in (None, "bool"):
                 return 1 - a
             raise Unknown("negation of a non-boolean")
         if k == "cases":
